@@ -2,6 +2,7 @@ package rules
 
 import (
 	"go/token"
+	"go/types"
 
 	"golang.org/x/tools/go/ssa"
 
@@ -75,4 +76,74 @@ func c19r9(p *model.Prog, r *report.Result) {
 		}
 	}
 	r.Check(found && !cond, "C19.R9", fkey(fn, "aac-rate", "from-asc-unconditionally"), p.Pos(fn.Pos()), "audioSampleRate = ASC sampling frequency", "the ASC's sampling frequency is stored only when audioSampleRate is still unset (or not at all): metadata that announced another rate wins for the SDP while config= and the RTP time stamps follow the ASC - rtpmap and stream disagree")
+}
+
+// c19r10: the picture size takes the SPS's crop units into account.
+func c19r10(p *model.Prog, r *report.Result) {
+	r.Rule("C19.R10", "avc.ParseSps: the amount subtracted from the coded width depends on chroma_format_idc, and the amount subtracted from the coded height on chroma_format_idc and frame_mbs_only_flag (H.264 7.4.2.1.1: CropUnitX = SubWidthC, CropUnitY = SubHeightC * (2 - frame_mbs_only_flag)): a constant crop unit of 2 reports 1084 lines for an interlaced 1080 stream and 1072 for 4:4:4")
+	fn := p.Func("pkg/avc", "ParseSps")
+	wF := p.Field("pkg/avc", "Context", "Width")
+	hF := p.Field("pkg/avc", "Context", "Height")
+	chroma := p.Field("pkg/avc", "Sps", "ChromaFormatIdc")
+	fmo := p.Field("pkg/avc", "Sps", "FrameMbsOnlyFlag")
+	dataDep := func(v ssa.Value, f *types.Var) bool {
+		return model.DependsOn(v, func(x ssa.Value) bool { return model.LoadedField(x) == f })
+	}
+	// data dependence, or selection by a branch on the field (a phi of constants chosen by a
+	// switch over the field's value): the conditions between the phi's block and its immediate
+	// dominator decide which edge is taken
+	dep := func(v ssa.Value, f *types.Var) bool {
+		if dataDep(v, f) {
+			return true
+		}
+		found := false
+		model.DependsOn(v, func(x ssa.Value) bool {
+			ph, ok := x.(*ssa.Phi)
+			if !ok || found {
+				return false
+			}
+			idom := ph.Block().Idom()
+			seen := map[*ssa.BasicBlock]bool{}
+			var up func(b *ssa.BasicBlock)
+			up = func(b *ssa.BasicBlock) {
+				if b == nil || seen[b] {
+					return
+				}
+				seen[b] = true
+				if iff, isIf := b.Instrs[len(b.Instrs)-1].(*ssa.If); isIf && dataDep(iff.Cond, f) {
+					found = true
+				}
+				if b == idom {
+					return
+				}
+				for _, pr := range b.Preds {
+					up(pr)
+				}
+			}
+			for _, pr := range ph.Block().Preds {
+				up(pr)
+			}
+			return false
+		})
+		return found
+	}
+	check := func(field *types.Var, name string, needs ...*types.Var) {
+		sts := model.FieldStores(fn, field)
+		if len(sts) != 1 {
+			r.Bad("C19.R10", fkey(fn, "crop", name+"-floor"), p.Pos(fn.Pos()), "store of Context."+name+" not found")
+			return
+		}
+		sub, ok := sts[0].Val.(*ssa.BinOp)
+		good := ok && sub.Op == token.SUB
+		if good {
+			for _, f := range needs {
+				if !dep(sub.Y, f) {
+					good = false
+				}
+			}
+		}
+		r.Check(good, "C19.R10", fkey(fn, "crop", name), p.InstrPos(sts[0]), "crop amount scaled by the SPS's crop unit", "the cropping subtracted from the coded "+name+" does not depend on the chroma format"+map[bool]string{true: " and frame_mbs_only_flag", false: ""}[len(needs) > 1]+": the reported picture size is wrong for interlaced, 4:2:2, 4:4:4 and monochrome streams")
+	}
+	check(wF, "width", chroma)
+	check(hF, "height", chroma, fmo)
 }
